@@ -1,10 +1,13 @@
 import FormulaicVerif.Proofs.C11Lists
 import FormulaicVerif.Proofs.C11Cache
+import FormulaicVerif.Proofs.C11Ext
 import Mathlib.LinearAlgebra.Matrix.NonsingularInverse
 import Mathlib.Algebra.BigOperators.Fin
 import Mathlib.Tactic.FieldSimp
 import Mathlib.Tactic.Ring
 import Mathlib.Tactic.Linarith
+import Mathlib.Analysis.Real.Sqrt
+import Mathlib.Data.Rat.Cast.Order
 /-! # C11 — Built-in contrast codings are valid and standard for every level count
 
 Property theorems only; helper lemmas are in `Proofs/C11*.lean`. Every `theorem` in this file is an
@@ -385,14 +388,16 @@ example : aug (.poly (fun _ => 0)) 2 0 0 = aug (.poly (fun _ => 0)) 2 1 0 ∧
 
 /-! ### one materialization that needs the same factor several times -/
 section cache
-open FormulaicVerif.Model.ContrastsCache FormulaicVerif.Spec.ContrastsCache
+open FormulaicVerif.Model.ContrastsCache FormulaicVerif.Spec.ContrastsCache FormulaicVerif.Model.ContrastsExt
 
 /-- C11.8  The materializer's encoded-factor cache and the per-part encoder state are invisible: for EVERY
-history of uses of a `C(x, contr.…)` factor inside one materialization (any sequence of full-rank /
-reduced-rank requests, spread over any number of parts), the columns handed to each use are exactly what
-a stand-alone `encode_contrasts(data, contrasts, levels=…, reduced_rank=r)` returns, and the
-materialization fails exactly when the first failing stand-alone call does. (`evalDrop = none`: the value
-`C(...)` returns carries no `drop_field`, so entries are keyed by `(expr, reduced_rank)`.) -/
+history of uses of a `C(x, …)` factor inside one materialization (any sequence of full-rank / reduced-rank
+requests, spread over any number of parts) and EVERY form of its second argument (an instance of a built-in
+coding, the class itself, nothing, a custom coding as `contr.custom(...)` or as a bare dict / array), the columns
+handed to each use are exactly what a stand-alone `encode_contrasts(data, contrasts, levels=…, reduced_rank=r)`
+returns, and the materialization fails exactly when the first failing stand-alone call does.
+(`evalDrop = none`: the value `C(...)` returns carries no `drop_field`, so entries are keyed by
+`(expr, reduced_rank)`.) -/
 theorem cache_transparent (f : Factor) (hd : f.evalDrop = none) (qs : List Request) :
     materialize f qs = each f qs :=
   run_eq_each f hd qs _ (inv_init f)
@@ -400,13 +405,14 @@ theorem cache_transparent (f : Factor) (hd : f.evalDrop = none) (qs : List Reque
 /-- C11.9  Hence every use, whatever was materialised before it in the same call, is
 `indicator(data) @ coding`, with the reduced coding (`n × (n-1)`) where reduced rank was asked for and
 the full coding (the identity, `full_is_identity`) elsewhere, over the explicit level list or the
-sorted distinct values. -/
-theorem materialized_is_product (f : Factor) (hd : f.evalDrop = none) (qs : List Request) (outs : List Encoded)
+sorted distinct values — for a built-in coding given as an instance, as its class or not at all. -/
+theorem materialized_is_product (f : Factor) (c : Contrast) (hc : resolveArg f.contrast = .ok (.builtin c))
+    (hd : f.evalDrop = none) (qs : List Request) (outs : List Encoded)
     (h : materialize f qs = .ok outs) :
     outs.length = qs.length ∧
       ∀ (k : ℕ) (hk : k < qs.length) (ho : k < outs.length) (m : List (List ℚ)),
         categories f ≠ [] →
-        getCodingMatrix f.contrast (categories f) qs[k].reduced (f.output == "sparse") = .ok m →
+        getCodingMatrix c (categories f) qs[k].reduced (f.output == "sparse") = .ok m →
         outs[k].values = matMul (indicator (categories f) f.data) m
           (if qs[k].reduced then (categories f).length - 1 else (categories f).length) := by
   rw [cache_transparent f hd qs] at h
@@ -414,25 +420,539 @@ theorem materialized_is_product (f : Factor) (hd : f.evalDrop = none) (qs : List
   refine ⟨hl, ?_⟩
   intro k hk1 hk2 m hne hm
   have henc := direct_ok (hk k hk1 hk2)
-  exact (apply_is_product f.data f.contrast f.levels qs[k].reduced f.output outs[k] (categories f) m henc hne hm).1
+  unfold xEncodeContrasts at henc
+  simp only [hc, xEncodeWith] at henc
+  exact (apply_is_product f.data c f.levels qs[k].reduced f.output outs[k] (categories f) m (liftB_ok henc) hne hm).1
 
-/-- the hypothesis holds for what `C(...)` returns, and histories that need both ranks exist -/
-example : (⟨[some (.str "a"), some (.str "b"), none, some (.str "c")], .sum, none, "pandas", none⟩ : Factor).evalDrop = none := rfl
+/-- C11.9b  … and for a custom coding every use is `indicator(data) @ the given matrix`, whatever rank the term asked
+for (more than one level; a single level in reduced rank is the empty short-circuit). -/
+theorem materialized_custom_is_product (f : Factor) (k : Custom) (hc : resolveArg f.contrast = .ok (.custom k))
+    (hd : f.evalDrop = none) (qs : List Request) (outs : List Encoded)
+    (h : materialize f qs = .ok outs) :
+    outs.length = qs.length ∧
+      ∀ (i : ℕ) (hi : i < qs.length) (ho : i < outs.length),
+        ((categories f).isEmpty || ((categories f).length == 1 && qs[i].reduced)) = false →
+        (categories f).length = k.dims.1 ∧
+        outs[i].values = matMul (indicator (categories f) f.data) k.rows k.dims.2 ∧
+        customColumnNames k = .ok outs[i].columnNames := by
+  rw [cache_transparent f hd qs] at h
+  obtain ⟨hl, hk⟩ := each_ok f qs outs h
+  refine ⟨hl, ?_⟩
+  intro i hi1 hi2 hsc
+  have henc := direct_ok (hk i hi1 hi2)
+  unfold xEncodeContrasts at henc
+  simp only [hc] at henc
+  obtain ⟨ha, _, _, _⟩ := xEncodeWith_custom henc
+  obtain ⟨h1, h2, h3, _⟩ := xApply_custom hsc ha
+  exact ⟨h1, h2, h3⟩
+
+/-- the hypotheses hold for what `C(...)` returns, and histories that need both ranks exist -/
+example : (⟨[some (.str "a"), some (.str "b"), none, some (.str "c")], .builtin .sum, none, "pandas", none⟩ : Factor).evalDrop = none := rfl
+example : resolveArg (.cls "SumContrasts") = .ok (.builtin .sum) := rfl
 example :
-    (materialize ⟨[some (.str "a"), some (.str "b"), none, some (.str "c")], .sum, none, "pandas", none⟩
+    (materialize ⟨[some (.str "a"), some (.str "b"), none, some (.str "c")], .builtin .sum, none, "pandas", none⟩
       [⟨false, true⟩, ⟨true, false⟩, ⟨true, true⟩]).toOption.map (fun l => l.map (·.values))
     = some [[[1, 0, 0], [0, 1, 0], [0, 0, 0], [0, 0, 1]],
             [[1, 0], [0, 1], [0, 0], [-1, -1]],
             [[1, 0], [0, 1], [0, 0], [-1, -1]]] := by decide +kernel
+example :
+    (materialize ⟨[some (.str "a"), some (.str "b"), none, some (.str "c")],
+        .custom (.dict [(.str "u", [1, 0, -1]), (.str "v", [0, 1, 1])]) none, none, "pandas", none⟩
+      [⟨false, true⟩, ⟨true, false⟩]).toOption.map (fun l => l.map (·.values))
+    = some [[[1, 0], [0, 1], [0, 0], [-1, 1]], [[1, 0], [0, 1], [0, 0], [-1, 1]]] := by decide +kernel
 /-- the hypothesis is not decoration: were entries keyed by the bare expression (a truthy `drop_field` on the
 evaluated factor), a reduced-rank use after a full-rank use would get the dummies minus one column instead of
 the reduced coding -/
 example :
-    (materialize ⟨[some (.str "a"), some (.str "b"), none, some (.str "c")], .sum, none, "pandas", some (.str "a")⟩
+    (materialize ⟨[some (.str "a"), some (.str "b"), none, some (.str "c")], .builtin .sum, none, "pandas", some (.str "a")⟩
       [⟨false, true⟩, ⟨true, false⟩]).toOption.map (fun l => l.map (·.values))
     = some [[[1, 0, 0], [0, 1, 0], [0, 0, 0], [0, 0, 1]],
             [[0, 0], [1, 0], [0, 0], [0, 1]]] := by decide +kernel
 
 end cache
+
+/-! ## The extended surface: argument forms, custom contrasts, direct `apply`, names and labels
+
+The definitions are in `Model/ContrastsExt.lean`; they are what the engine runs for the request kinds
+"encode" (every form of the `contrasts=` argument), "custom", "apply" and for the label fields of "matrices". -/
+section ext
+open FormulaicVerif.Model.ContrastsExt
+
+/-- C11.10a  The dataclass defaults of the live package (`Gen.ContrastsTable.fieldDefaults`, regenerated on every
+run) resolve a bare class to the documented instance: `contr.treatment` = `contr.treatment()` with the first level
+as reference, `contr.SAS` the last, `contr.helmert` reversed and unscaled (R's), `contr.diff` backward,
+`contr.poly` with equally spaced scores; `CustomContrasts` cannot be instantiated without a matrix. -/
+theorem class_defaults :
+    classDefault "TreatmentContrasts" = .ok (.treatment none) ∧ classDefault "SASContrasts" = .ok (.sas none) ∧
+    classDefault "SumContrasts" = .ok .sum ∧ classDefault "HelmertContrasts" = .ok (.helmert true false) ∧
+    classDefault "DiffContrasts" = .ok (.diff true) ∧ classDefault "PolyContrasts" = .ok (.poly none) ∧
+    classDefault "CustomContrasts" = .error .missingArgument := by
+  refine ⟨?_, ?_, ?_, ?_, ?_, ?_, ?_⟩ <;> rfl
+
+/-- the class a model contrast is an instance of -/
+def className : Contrast → String
+  | .treatment _ => "TreatmentContrasts"
+  | .sas _ => "SASContrasts"
+  | .sum => "SumContrasts"
+  | .helmert _ _ => "HelmertContrasts"
+  | .diff _ => "DiffContrasts"
+  | .poly _ => "PolyContrasts"
+
+/-- the `(FACTOR_FORMAT, FACTOR_FORMAT_REDUCED)` the model uses for a class -/
+def modelFormats (cls : String) : Option (String × String) :=
+  match classDefault cls with
+  | .ok c => some (factorFormat c false, factorFormat c true)
+  | .error _ => if cls = "CustomContrasts" then some (plainFormat, plainFormat) else none
+
+/-- C11.10b  The finite tables copied into the model agree with the live package (tables regenerated from
+`formulaic.transforms.contrasts` on every run; this theorem is re-decided then): the seven registered classes with
+their factor formats, `PolyContrasts.NAME_ALIASES` (and `^d` beyond), the `contr.<name>` registry. -/
+theorem live_tables_match :
+    (∀ e ∈ Gen.ContrastsTable.formats, modelFormats e.1 = some e.2) ∧
+    (Gen.ContrastsTable.formats.map (·.1)) =
+      ["CustomContrasts", "DiffContrasts", "HelmertContrasts", "PolyContrasts", "SASContrasts", "SumContrasts", "TreatmentContrasts"] ∧
+    (∀ p ∈ Gen.ContrastsTable.polyAliases, polyName p.1 = Label.str p.2) ∧
+    (Gen.ContrastsTable.polyAliases.map (·.1)) = [1, 2, 3] ∧ polyName 4 = Label.str "^4" ∧
+    Gen.ContrastsTable.registry =
+      [("SAS", className (.sas none)), ("custom", "CustomContrasts"), ("diff", className (.diff true)),
+       ("helmert", className (.helmert true false)), ("poly", className (.poly none)), ("sum", className .sum),
+       ("treatment", className (.treatment none))] := by
+  refine ⟨by decide, by decide, by decide, by decide, by decide, by decide⟩
+
+/-- C11.10c  Every form of the `contrasts=` argument of `encode_contrasts` / `C(...)` that names a built-in coding —
+an instance, nothing at all (`None`: treatment coding), or the class itself — is encoded by the very function the
+theorems above are about (`Model.Contrasts.encodeContrasts`, hence `apply_is_product`, `cache_transparent`, … apply). -/
+theorem encode_argument_forms (data : List (Option Label)) (levels : Option (List Label)) (reduced : Bool)
+    (output : String) :
+    (∀ c, xEncodeContrasts data (.builtin c) levels reduced output = liftB (encodeContrasts data c levels reduced output)) ∧
+    xEncodeContrasts data .unset levels reduced output = liftB (encodeContrasts data (.treatment none) levels reduced output) ∧
+    (∀ c, (∀ b, c ≠ .treatment (some b)) → (∀ b, c ≠ .sas (some b)) → (∀ sc, c ≠ .poly (some sc)) →
+      c ≠ .helmert false false → c ≠ .helmert false true → c ≠ .helmert true true → c ≠ .diff false →
+      xEncodeContrasts data (.cls (className c)) levels reduced output
+        = liftB (encodeContrasts data c levels reduced output)) ∧
+    xEncodeContrasts data (.cls "CustomContrasts") levels reduced output = .error .missingArgument := by
+  refine ⟨fun c => rfl, rfl, ?_, rfl⟩
+  intro c h1 h2 h3 h4 h5 h6 h7
+  cases c with
+  | treatment b => cases b with
+    | none => rfl
+    | some l => exact absurd rfl (h1 l)
+  | sas b => cases b with
+    | none => rfl
+    | some l => exact absurd rfl (h2 l)
+  | sum => rfl
+  | helmert r s => cases r <;> cases s <;> first | rfl | exact absurd rfl h4 | exact absurd rfl h5 | exact absurd rfl h6
+  | diff b => cases b <;> first | rfl | exact absurd rfl h7
+  | poly sc => cases sc with
+    | none => rfl
+    | some l => exact absurd rfl (h3 l)
+
+/-- C11.11a  `CustomContrasts(...)`: what is stored is a rectangular array of the recorded shape; names, when there are
+any (the `names=` argument, else the dict keys), are exactly as many as its columns — and misaligned names are the
+`ValueError` (here for a sequence of rows; `numpy`'s 1-d arrays have no `shape[1]`: the `IndexError`). -/
+theorem custom_init (inp : CustomInput) (names : Option (List Label)) :
+    (∀ k, mkCustom inp names = .ok k →
+      isRect k.rows k.dims.1 k.dims.2 = true ∧ ∀ ns, k.names = some ns → ∃ r, k.shape = .d2 r ns.length) ∧
+    (∀ r0 rest ns, inp = .rows (r0 :: rest) → (∀ row ∈ rest, row.length = r0.length) → names = some ns →
+      mkCustom inp names = if ns.length = r0.length then .ok ⟨.d2 (rest.length + 1) r0.length, r0 :: rest, some ns⟩
+                           else .error .namesMismatch) := by
+  refine ⟨fun k h => mkCustom_spec h, ?_⟩
+  intro r0 rest ns hi hrect hn
+  subst hi hn
+  have hall : rest.all (fun x => x.length == r0.length) = true := by
+    rw [List.all_eq_true]; intro x hx; simp [hrect x hx]
+  simp only [mkCustom, customArray, npArray, hall, if_true, checkNames]
+
+example : mkCustom (.dict [(.str "x", [1, 2, 3]), (.str "y", [0, 1, 0])]) none
+    = .ok ⟨.d2 3 2, [[1, 0], [2, 1], [3, 0]], some [.str "x", .str "y"]⟩ := rfl
+example : mkCustom (.rows [[1, 2], [3, 4], [5, 6]]) (some [.str "u"]) = .error .namesMismatch := rfl
+
+/-- C11.11b  The columns of a custom coding are named as given (dict keys / `names=`), or `1 … k`. -/
+theorem custom_names (k : Custom) :
+    (∀ n ns, k.names = some (n :: ns) → customColumnNames k = .ok (n :: ns)) ∧
+    (∀ r c, (k.names = none ∨ k.names = some []) → k.shape = .d2 r c →
+      customColumnNames k = .ok ((List.range c).map fun (i : ℕ) => Label.int ((i : ℤ) + 1))) := by
+  constructor
+  · intro n ns h; simp [customColumnNames, h]
+  · intro r c h hs
+    rcases h with h | h <;> simp [customColumnNames, h, Custom.ncols, hs, bind, Except.bind, pure, Except.pure]
+
+/-- C11.11c  Encoding with a custom coding — handed over as `contr.custom(...)` or as a bare dict / array, which
+`encode_contrasts` wraps in `CustomContrasts(...)` — equals the indicator matrix of the data (over the explicit or
+inferred level list) times the GIVEN matrix, whatever rank was asked for; the matrix must have one row per level; the
+columns are named as `custom_names` says; the result never claims to span the intercept and has no `drop_field`. -/
+theorem custom_encode_is_product (data : List (Option Label)) (inp : CustomInput) (names : Option (List Label))
+    (levels : Option (List Label)) (reduced : Bool) (output : String) (enc : Encoded) (cats : List Label)
+    (h : xEncodeContrasts data (.custom inp names) levels reduced output = .ok (enc, cats))
+    (hsc : (cats.isEmpty || (cats.length == 1 && reduced)) = false) :
+    ∃ k, mkCustom inp names = .ok k ∧ cats.length = k.dims.1 ∧
+      enc.values = matMul (indicator cats data) k.rows k.dims.2 ∧
+      k.rows = toRows (entry k.rows) k.dims.1 k.dims.2 ∧
+      customColumnNames k = .ok enc.columnNames ∧ enc.spansIntercept = false ∧ enc.dropField = none ∧
+      (∀ ls, levels = some ls → cats = ls) ∧ (levels = none → cats = inferLevels data) := by
+  obtain ⟨k, hk, ha, hl, hi⟩ := xEncode_custom h
+  obtain ⟨h1, h2, h3, h4, h5, _, _⟩ := xApply_custom hsc ha
+  exact ⟨k, hk, h1, h2, rect_eq_toRows (mkCustom_spec hk).1, h3, h4, h5, hl, hi⟩
+
+/-- the hypotheses are satisfiable, and the result is the expected one -/
+example :
+    (xEncodeContrasts [some (.str "a"), none, some (.str "c"), some (.str "zz")]
+      (.custom (.dict [(.str "x", [1, 2, 3]), (.str "y", [0, 1, 0])]) none)
+      (some [.str "a", .str "b", .str "c"]) true "pandas").toOption.map (fun p => (p.1.values, p.1.columnNames))
+    = some ([[1, 0], [0, 0], [3, 0], [0, 0]], [.str "x", .str "y"]) := by decide +kernel
+
+/-- C11.12a  `contrasts.apply(dummies, levels, …)` without `output`: the output type is the one that goes with the type
+of `dummies` (DataFrame → "pandas", ndarray → "numpy", sparse matrix → "sparse"), i.e. the call behaves exactly as if
+that output had been spelled out; any other type cannot be imputed; an unknown output name is rejected. -/
+theorem apply_output_inferred (x : XContrast) (t : DummiesType) (dummies : List (List ℚ)) (levels : List Label)
+    (reduced : Bool) :
+    applyDirect x t dummies levels reduced none
+      = (match outputOfType t with
+         | some o => applyDirect x t dummies levels reduced (some o)
+         | none => .error .cannotImpute) ∧
+    (∀ o, ¬ o ∈ outputNames → applyDirect x t dummies levels reduced (some o) = .error .badOutput) := by
+  constructor
+  · cases t <;> rfl
+  · intro o ho
+    have : outputNames.contains o = false := by
+      rw [Bool.eq_false_iff]; intro hc; exact ho (by simpa using hc)
+    simp [applyDirect, resolveOutput, ho, bind, Except.bind]
+
+/-- C11.12b  … and what it returns for a built-in coding is `dummies @ coding` for ANY rectangular `dummies` (one
+column per level; not only indicator matrices), through the generic product, the treatment fast path or the empty
+short-circuit, with the names / drop field / formats of that coding; dense and sparse containers alike. -/
+theorem apply_direct_is_product (c : Contrast) (t : DummiesType) (dummies : List (List ℚ)) (levels : List Label)
+    (reduced : Bool) (output : Option String) (e : Encoded) (o : String) (m : List (List ℚ))
+    (h : applyDirect (.builtin c) t dummies levels reduced output = .ok (e, o)) (hne : levels ≠ [])
+    (hrect : ∀ row ∈ dummies, row.length = levels.length)
+    (hm : getCodingMatrix c levels reduced (o == "sparse") = .ok m) :
+    e.values = matMul dummies m (if reduced then levels.length - 1 else levels.length) ∧
+      (output = none → outputOfType t = some o) ∧ (∀ o', output = some o' → o = o') ∧
+      ((levels.isEmpty || (levels.length == 1 && reduced)) = false →
+        codingColumnNames c levels reduced = .ok e.columnNames ∧ dropField c levels reduced = .ok e.dropField) := by
+  obtain ⟨hr, ha⟩ := applyDirect_ok h
+  have ha' := xApply_builtin ha
+  refine ⟨apply_values c dummies levels reduced _ e m hne hrect ha' hm, ?_, ?_, ?_⟩
+  · intro ho; subst ho
+    cases t <;> simp [resolveOutput] at hr <;> simp [outputOfType, hr]
+  · intro o' ho; subst ho
+    simp only [resolveOutput] at hr
+    split_ifs at hr
+    simpa using hr.symm
+  · intro hsc
+    obtain ⟨h1, h2, _⟩ := apply_meta c dummies levels reduced _ e hsc ha'
+    exact ⟨h1, h2⟩
+
+example : (applyDirect (.builtin (.helmert true false)) .ndarray [[2, 0, -1], [0, 1, 0]] [.str "a", .str "b", .str "c"] true none).toOption.map
+    (fun p => (p.1.values, p.2)) = some ([[-2, -4], [1, -1]], "numpy") := by decide +kernel
+
+/-- C11.13  The coefficient matrix of a custom coding — the exact inverse the model computes where the code calls
+`numpy.linalg.inv` / `scipy.sparse.linalg.inv` — IS the two-sided inverse of `[1 | coding]` (reduced rank; one row
+per level) or of the coding itself (full rank), as Mathlib matrices; and when the model reports the singular-matrix
+error (`LinAlgError` / `RuntimeError`, or scipy's NaN answer for `1 × 1`), that matrix has no inverse. -/
+theorem custom_coefficient_is_inverse (k : Custom) (levels : List Label) (reduced sparse : Bool) :
+    (∀ K, customCoefMatrix k levels reduced sparse = .ok K →
+      ∃ n, (reduced = true → n = levels.length) ∧ (reduced = false → n = k.dims.1) ∧
+        toM K n * toM (coefInput k reduced) n = 1 ∧ toM (coefInput k reduced) n * toM K n = 1) ∧
+    (∀ e, customCoefMatrix k levels reduced sparse = .error e → ((∃ s, e = .singular s) ∨ e = .nanResult) →
+      ∃ n, ¬ IsUnit (toM (coefInput k reduced) n).det) := by
+  constructor
+  · intro K h
+    obtain ⟨n, hi, h1, h2⟩ := customCoef_inverse h
+    obtain ⟨ha, hb⟩ := invert_inverse_sound hi
+    exact ⟨n, h1, h2, ha, hb⟩
+  · intro e h he
+    obtain ⟨n, w, hi⟩ := customCoef_singular h he
+    exact ⟨n, invert_singular_sound hi⟩
+
+/-- `[1 | coding]`: column 0 is the constant, column `j+1` is column `j` of the given matrix -/
+theorem coef_input_entries (k : Custom) (i j : ℕ) (hi : i < k.rows.length) :
+    entry (coefInput k true) i 0 = 1 ∧ entry (coefInput k true) i (j + 1) = entry k.rows i j ∧
+      coefInput k false = k.rows :=
+  ⟨by simpa [coefInput] using hstackOnes_entry_zero k.rows i hi,
+   by simpa [coefInput] using hstackOnes_entry_succ k.rows i j, rfl⟩
+
+example : customCoefMatrix ⟨.d2 3 2, [[1, 0], [2, 1], [3, 0]], none⟩ [.str "a", .str "b", .str "c"] true false
+    = .ok [[3/2, 0, -1/2], [-1/2, 0, 1/2], [-1/2, 1, -1/2]] := by decide +kernel
+example : customCoefMatrix ⟨.d2 3 2, [[1, 2], [3, 4], [5, 6]], none⟩ [.str "a", .str "b", .str "c"] true false
+    = .error (.singular false) := by decide +kernel
+
+/-- C11.14a  Names align with matrices, for every built-in coding and level list: as many coding column names as the
+coding matrix has columns (`shape`), as many coefficient row names as levels (the coefficient matrix is `n × n`) —
+the latter for pairwise distinct levels, which the treatment names (`base`, `level-base` for the others) need. -/
+theorem names_align (c : Contrast) (levels : List Label) (reduced : Bool) :
+    (∀ names, codingColumnNames c levels reduced = .ok names →
+      names.length = if reduced then levels.length - 1 else levels.length) ∧
+    (∀ rows, levels ≠ [] → levels.Nodup → coefRowNames c levels reduced = .ok rows → rows.length = levels.length) :=
+  ⟨fun names h => codingColumnNames_length c levels reduced names h,
+   fun rows hne hnd h => coefRowNames_length c levels reduced rows hne hnd h⟩
+
+example : coefRowNames (.treatment (some (.int 3))) [.str "a", .int 3, .str "c"] true
+    = .ok [.int 3, .str "a-3", .str "c-3"] := by decide +kernel
+example : coefRowNames (.diff false) [.str "a", .int 3, .str "c"] true = .ok [.str "avg", .str "a - 3", .str "3 - c"] := by
+  decide +kernel
+
+/-- C11.14b  Except for the polynomial coding (whose columns are called `.L .Q .C ^4 …`) the column names ARE levels, in
+the order of the level list — so they are pairwise distinct when the levels are — and in full rank the `drop_field` is
+one of them (so the materializer's `del encoded[drop_field]` always finds its column). -/
+theorem names_are_levels (c : Contrast) (levels : List Label) (reduced : Bool) (names : List Label)
+    (h : codingColumnNames c levels reduced = .ok names) :
+    ((∀ sc, c ≠ .poly sc) → names.Sublist levels ∧ (levels.Nodup → names.Nodup)) ∧
+    (∀ l, reduced = false → dropField c levels false = .ok (some l) → l ∈ names) := by
+  constructor
+  · intro hp
+    have hs := codingColumnNames_sublist c levels reduced names hp h
+    exact ⟨hs, fun hnd => hnd.sublist hs⟩
+  · intro l hr hd
+    subst hr
+    exact dropField_mem_names c levels l names hd h
+
+/-- C11.14c  The `DataFrame`s that the dense `get_coding_matrix` / `get_coefficient_matrix` return are labelled
+consistently: rows of the coding matrix by the levels, its columns by the coding column names (as many as it has
+columns); columns of the coefficient matrix by the levels. -/
+theorem frame_labels_align (c : Contrast) (levels : List Label) (reduced : Bool) :
+    (∀ idx cols, codingFrameLabels c levels reduced = .ok (idx, cols) →
+      ∃ m, getCodingMatrix c levels reduced false = .ok m ∧ idx = levels ∧ m.length = idx.length ∧
+        codingColumnNames c levels reduced = .ok cols ∧ ∀ row ∈ m, row.length = cols.length) ∧
+    (∀ idx cols, coefFrameLabels c levels reduced = .ok (idx, cols) →
+      cols = levels ∧ coefRowNames c levels reduced = .ok idx) := by
+  constructor
+  · intro idx cols h
+    simp only [codingFrameLabels, bind, Except.bind] at h
+    cases hr : rawCodingMatrix c levels reduced with
+    | error e => simp [hr] at h
+    | ok m =>
+      simp only [hr] at h
+      cases hn : codingColumnNames c levels reduced with
+      | error e => simp [hn] at h
+      | ok names =>
+        simp only [hn, pure, Except.pure, Except.ok.injEq, Prod.mk.injEq] at h
+        obtain ⟨h1, h2⟩ := h
+        subst h1 h2
+        have hg : getCodingMatrix c levels reduced false = .ok m := by
+          simp [getCodingMatrix, hr, hn, bind, Except.bind, pure, Except.pure]
+        obtain ⟨h1, h2⟩ := shape c levels reduced false m hg
+        refine ⟨m, hg, rfl, h1, rfl, ?_⟩
+        intro row hrow
+        rw [h2 row hrow, codingColumnNames_length c levels reduced names hn]
+  · intro idx cols h
+    simp only [coefFrameLabels, bind, Except.bind] at h
+    cases hg : getCodingMatrix c levels reduced false with
+    | error e => simp [hg] at h
+    | ok m =>
+      simp only [hg] at h
+      cases hn : coefRowNames c levels reduced with
+      | error e => simp [hn] at h
+      | ok rows =>
+        simp only [hn, pure, Except.pure, Except.ok.injEq, Prod.mk.injEq] at h
+        obtain ⟨h1, h2⟩ := h
+        subst h1 h2
+        exact ⟨rfl, rfl⟩
+
+end ext
+
+/-! ## Row by row -/
+section rows
+open FormulaicVerif.Model.ContrastsExt
+
+/-- the level list `encode_contrasts` works with — explicit (duplicates are rejected) or inferred (sorted distinct
+values) — has pairwise distinct entries -/
+theorem encode_levels_distinct (data : List (Option Label)) (c : Contrast) (levels : Option (List Label))
+    (reduced : Bool) (output : String) (enc : Encoded) (cats : List Label)
+    (h : encodeContrasts data c levels reduced output = .ok (enc, cats)) : cats.Nodup := by
+  have nodup_of : ∀ ls : List Label, hasDup ls = false → ls.Nodup := by
+    intro ls
+    induction ls with
+    | nil => intro _; exact List.nodup_nil
+    | cons a t ih =>
+      intro hd
+      simp only [hasDup, Bool.or_eq_false_iff] at hd
+      rw [List.nodup_cons]
+      refine ⟨?_, ih hd.2⟩
+      intro hm
+      have : t.contains a = true := by simpa using hm
+      rw [this] at hd
+      exact absurd hd.1 (by simp)
+  cases levels with
+  | none =>
+    rw [FormulaicVerif.Proofs.C04.encode_none] at h
+    have := (encode_some_spec h).1
+    rw [this]
+    exact nodup_of _ (FormulaicVerif.Proofs.C04.hasDup_inferLevels data)
+  | some ls =>
+    have hc := (encode_some_spec h).1
+    rw [hc]
+    apply nodup_of
+    rw [FormulaicVerif.Proofs.C04.encode_some] at h
+    by_cases hd : hasDup ls = true
+    · simp [hd] at h
+    · simpa using hd
+
+/-- C11.6b  Row by row: the encoded row of a datum IS the row of the coding matrix that belongs to its level (position
+in the explicit / inferred level list), and the zero row for a null or a value outside the levels — for every coding,
+rank, output type and data vector (absent levels simply select no row). `Spec.Contrasts.selectedRow` spells this out. -/
+theorem encoded_rows (data : List (Option Label)) (c : Contrast) (levels : Option (List Label))
+    (reduced : Bool) (output : String) (enc : Encoded) (cats : List Label) (m : List (List ℚ))
+    (h : encodeContrasts data c levels reduced output = .ok (enc, cats)) (hne : cats ≠ [])
+    (hm : getCodingMatrix c cats reduced (output == "sparse") = .ok m) :
+    enc.values = data.map (selectedRow cats m (if reduced then cats.length - 1 else cats.length)) := by
+  have hnd := encode_levels_distinct data c levels reduced output enc cats h
+  obtain ⟨hv, hl⟩ := apply_is_product data c levels reduced output enc cats m h hne hm
+  obtain ⟨hs1, hs2⟩ := shape c cats reduced _ m hm
+  have hrect : isRect m cats.length (if reduced then cats.length - 1 else cats.length) = true := by
+    simp only [isRect, Bool.and_eq_true, beq_iff_eq, List.all_eq_true]
+    exact ⟨hs1, hs2⟩
+  rw [hv]
+  simp only [matMul, indicator, List.map_map]
+  apply List.map_congr_left
+  intro d _
+  exact matMul_indicator_row cats hnd m _ hrect d
+
+example :
+    (encodeContrasts [some (.str "b"), none, some (.str "zz"), some (.str "c")] .sum (some [.str "a", .str "b", .str "c"])
+      true "numpy").toOption.map (fun p => p.1.values) = some [[0, 1], [0, 0], [0, 0], [-1, -1]] := by decide +kernel
+
+/-- C11.6c  Treatment / SAS coding in reduced rank: the coding row of level `i` has a `1` in the column of that level
+and `0` elsewhere — the row of the REFERENCE level (`base=…`, first level for treatment, last for SAS) is all zeros, so
+by `encoded_rows` a datum at the reference level is encoded as zeros and every other level by its own indicator. -/
+theorem treatment_rows (sas : Bool) (b : Option Label) (levels : List Label) (sparse : Bool) (d : ℕ)
+    (m : List (List ℚ)) (hne : levels ≠ []) (hd : findBaseIndex sas b levels = .ok d)
+    (hm : getCodingMatrix (if sas then .sas b else .treatment b) levels true sparse = .ok m) :
+    (∀ i, i < levels.length →
+      m[i]? = some ((List.range (levels.length - 1)).map fun j => if i = skip d j then (1 : ℚ) else 0)) ∧
+    m[d]? = some (List.replicate (levels.length - 1) 0) := by
+  obtain ⟨k, hk, hmk, _⟩ := model_rows_are_entries _ levels sparse m hm
+  have hkd : k = .treatment d := by
+    cases sas <;> simp [Contrast.kind, hd, Except.map] at hk <;> exact hk.symm
+  subst hkd
+  have hdl := findBaseIndex_lt sas b levels d hne hd
+  have rows : ∀ i, i < levels.length →
+      m[i]? = some ((List.range (levels.length - 1)).map fun j => if i = skip d j then (1 : ℚ) else 0) := by
+    intro i hi
+    rw [hmk]
+    simp only [toRows, List.getElem?_map, List.getElem?_range hi, Option.map_some, Option.some.injEq]
+    apply List.map_congr_left
+    intro j _
+    simp [Model.Contrasts.coding, takeCols, eye]
+  refine ⟨rows, ?_⟩
+  rw [rows d hdl]
+  congr 1
+  apply List.ext_getElem (by simp)
+  intro j h1 h2
+  simp [Ne.symm (skip_ne d j)]
+
+example : findBaseIndex false (some (.str "b")) [.str "a", .str "b", .str "c"] = .ok 1 := by decide
+example : getCodingMatrix (.treatment (some (.str "b"))) [.str "a", .str "b", .str "c"] true false
+    = .ok [[1, 0], [0, 0], [0, 1]] := by decide +kernel
+
+/-- C11.6d  The encoder closure that `C(...)` installs: the rows the materializer drops (nulls elsewhere in the row, …)
+are removed BY POSITION before encoding, and with an explicit or recorded level list that is the same as encoding all
+rows and taking those rows out afterwards — the level list, hence the reference level and the columns, does not depend
+on which rows survive. -/
+theorem c_encoder_drops_rows (data : List (Option Label)) (c : Contrast) (ls : List Label)
+    (state : Option (List Label)) (drop : List ℕ) (reduced : Bool) (output : String)
+    (e1 e2 : Encoded) (cats1 cats2 : List Label) (m : List (List ℚ))
+    (h1 : cEncoder data (.builtin c) (some ls) state drop reduced output = .ok (e1, cats1))
+    (h2 : encodeContrasts data c (some ls) reduced output = .ok (e2, cats2))
+    (hne : ls ≠ []) (hm : getCodingMatrix c ls reduced (output == "sparse") = .ok m) :
+    e1.values = dropRows drop e2.values ∧ cats1 = ls ∧ cats2 = ls := by
+  have h1' : encodeContrasts (dropRows drop data) c (some ls) reduced output = .ok (e1, cats1) := by
+    unfold cEncoder xEncodeContrasts at h1
+    simp only [resolveArg, xEncodeWith] at h1
+    exact liftB_ok h1
+  have hc1 : cats1 = ls := (encode_some_spec h1').1
+  have hc2 : cats2 = ls := (encode_some_spec h2).1
+  subst hc1 hc2
+  refine ⟨?_, rfl, rfl⟩
+  rw [encoded_rows _ c _ reduced output e1 _ m h1' hne hm, encoded_rows _ c _ reduced output e2 _ m h2 hne hm]
+  unfold dropRows
+  rw [dropRowsFrom_map]
+
+example : dropRows [2, 0, 2] [10, 11, 12, 13] = [11, 13] := by decide
+
+end rows
+
+/-! ## The polynomial coding as it is computed: over the reals, with the `sqrt` normalisation -/
+section real
+
+/-- The polynomial coding as the code computes it, over the reals: column `j` is the unnormalised column
+`P_{j+1}` (exact rationals, `polyP`) divided by `sqrt(norms2[j+1])` (`poly.py`: `Z /= numpy.sqrt(norms2)`). -/
+noncomputable def polyCodingR (n : ℕ) (x : ℕ → ℚ) : Matrix (Fin n) (Fin (n - 1)) ℝ :=
+  Matrix.of fun i j => (codingM (.poly x) n i j : ℝ) / Real.sqrt (polyNorm2 n x (j.val + 1) : ℝ)
+
+/-- `[1 | coding]` over the reals -/
+noncomputable def polyAugR (n : ℕ) (x : ℕ → ℚ) : Matrix (Fin n) (Fin n) ℝ :=
+  Matrix.of fun i c => if h : c.val = 0 then 1 else polyCodingR n x i ⟨c.val - 1, by have := c.isLt; omega⟩
+
+/-- its inverse in closed form: row 0 is the mean, row `r+1` is column `r` of the coding (orthonormal columns) -/
+noncomputable def polyCoefR (n : ℕ) (x : ℕ → ℚ) : Matrix (Fin n) (Fin n) ℝ :=
+  Matrix.of fun r i => if h : r.val = 0 then 1 / (n : ℝ) else polyCodingR n x i ⟨r.val - 1, by have := r.isLt; omega⟩
+
+/-- C11.5b  The polynomial coding AS COMPUTED (columns divided by `sqrt(norms2)`, over the reals) has orthonormal
+columns that sum to zero, for every `n` and pairwise distinct scores: `Qᵀ Q = 1`. -/
+theorem poly_normalised_orthonormal (n : ℕ) (x : ℕ → ℚ) (hv : Valid (.poly x) n) :
+    (polyCodingR n x)ᵀ * polyCodingR n x = 1 ∧ ∀ j, ∑ i : Fin n, polyCodingR n x i j = 0 := by
+  constructor
+  · ext j k
+    simp only [Matrix.mul_apply, Matrix.transpose_apply, Matrix.one_apply]
+    obtain ⟨h1, h2, h3⟩ := poly_orthogonal n x hv j k
+    obtain ⟨_, _, h3k⟩ := poly_orthogonal n x hv k k
+    have pj : (0 : ℝ) < (polyNorm2 n x (j.val + 1) : ℝ) := by exact_mod_cast h3
+    have pk : (0 : ℝ) < (polyNorm2 n x (k.val + 1) : ℝ) := by exact_mod_cast h3k
+    have sj := Real.sqrt_ne_zero'.mpr pj
+    have sk := Real.sqrt_ne_zero'.mpr pk
+    simp only [polyCodingR, Matrix.of_apply]
+    have : ∀ i : Fin n, (codingM (.poly x) n i j : ℝ) / Real.sqrt (polyNorm2 n x (j.val + 1) : ℝ)
+        * ((codingM (.poly x) n i k : ℝ) / Real.sqrt (polyNorm2 n x (k.val + 1) : ℝ))
+        = ((codingM (.poly x) n i j * codingM (.poly x) n i k : ℚ) : ℝ)
+          / (Real.sqrt (polyNorm2 n x (j.val + 1) : ℝ) * Real.sqrt (polyNorm2 n x (k.val + 1) : ℝ)) := by
+      intro i; push_cast; field_simp
+    rw [Finset.sum_congr rfl (fun i _ => this i), ← Finset.sum_div, ← Rat.cast_sum]
+    by_cases hjk : j = k
+    · subst hjk
+      rw [h2, if_pos rfl, Real.mul_self_sqrt pj.le, div_self pj.ne']
+    · rw [h1 hjk, if_neg hjk]; simp
+  · intro j
+    have h := columns_sum_zero (.poly x) n hv trivial j
+    simp only [polyCodingR, Matrix.of_apply]
+    rw [← Finset.sum_div, ← Rat.cast_sum, h]; simp
+
+/-- C11.3c  … and `[1 | Q]` is invertible over the reals with the explicit inverse `[1/n · 1ᵀ ; Qᵀ]` — the coefficient
+matrix `get_coefficient_matrix` reports for `contr.poly` (up to `numpy.linalg.inv`'s rounding). -/
+theorem poly_normalised_coefficient_is_inverse (n : ℕ) (x : ℕ → ℚ) (hv : Valid (.poly x) n) :
+    polyCoefR n x * polyAugR n x = 1 ∧ polyAugR n x * polyCoefR n x = 1 ∧ IsUnit (polyAugR n x).det := by
+  obtain ⟨hgram, hcol⟩ := poly_normalised_orthonormal n x hv
+  have gram : ∀ j k : Fin (n - 1), ∑ i : Fin n, polyCodingR n x i j * polyCodingR n x i k = if j = k then 1 else 0 := by
+    intro j k
+    have := congrFun (congrFun hgram j) k
+    simpa [Matrix.mul_apply, Matrix.transpose_apply, Matrix.one_apply] using this
+  have h : polyCoefR n x * polyAugR n x = 1 := by
+    ext r c
+    have hn : (n : ℝ) ≠ 0 := by
+      have : 0 < n := Fin.pos r
+      exact_mod_cast this.ne'
+    simp only [Matrix.mul_apply, polyCoefR, polyAugR, Matrix.of_apply, Matrix.one_apply]
+    by_cases hr : r.val = 0 <;> by_cases hc : c.val = 0
+    · have : r = c := Fin.ext (by omega)
+      simp [hr, hc, this, hn]
+    · have : r ≠ c := fun e => hc (by rw [← e]; exact hr)
+      simp only [hr, hc, dite_true, dite_false, if_neg this]
+      rw [← Finset.mul_sum, hcol, mul_zero]
+    · have : r ≠ c := fun e => hr (by rw [e]; exact hc)
+      simp only [hr, hc, dite_true, dite_false, if_neg this, mul_one]
+      exact hcol _
+    · simp only [hr, hc, dite_false]
+      rw [gram]
+      have : (⟨r.val - 1, by have := r.isLt; omega⟩ : Fin (n - 1)) = ⟨c.val - 1, by have := c.isLt; omega⟩ ↔ r = c := by
+        rw [Fin.ext_iff, Fin.ext_iff]; simp only; omega
+      simp [this]
+  exact ⟨h, mul_eq_one_comm.mp h, Matrix.isUnit_det_of_left_inverse h⟩
+
+example : Valid (.poly (fun i => (i : ℚ))) 5 := by
+  intro i j _ _ h
+  have h' : (i : ℚ) = (j : ℚ) := h
+  exact_mod_cast h'
+
+end real
 
 end FormulaicVerif.Props.C11
